@@ -259,14 +259,23 @@ def c19_r5(ctx):
         if not ok:
             ctx.viol('%s|to-remote-guard' % c.path, s['at'],
                      'to_remote is set on a path not guarded by "destination host != this host" (conditions: %s)' % show_dnf(dnf), None)
-    rc = facts.method(TOPO, 'register_channel')
-    mux = q.calls_suffix(rc, 'NetworkTopology::register_mux')
-    demux = q.calls_suffix(rc, 'NetworkTopology::register_demux')
-    if not mux or not demux:
-        raise AnchorMissing('register_channel must call register_mux and register_demux')
+    # the function that turns the metadata of an endpoint into channels; its private helpers are inlined in this view, so the
+    # multiplexer / demultiplexer primitives themselves are the anchors (not the names of the helpers that wrap them)
+    cands = [f for f in facts.lib_fns() if f.impl_adt == TOPO and f.kind == 'assoc']
+    rc = None
+    for f in cands:
+        v = facts.inl(f, mode='self')
+        ps = [(t['callee'].get('path') or '') for _, t in v.calls()]
+        if any(p_.endswith('MultiplexingSender::<Out>::get_sender') for p_ in ps) and any(p_.endswith('DemuxHandle::<In>::register') for p_ in ps):
+            if rc is None or len(v.blocks) < len(rc.blocks):
+                rc = v
+    if rc is None:
+        raise AnchorMissing('no method of NetworkTopology obtains both a multiplexed sender and registers with a demultiplexer')
+    mux = q.calls_suffix(rc, 'MultiplexingSender::<Out>::get_sender')
+    demux = q.calls_suffix(rc, 'DemuxHandle::<In>::register')
     for bi, t in mux:
         dnf = q.cond_of_block(facts, rc, bi)
-        ctx.inst('register_channel|mux', {'at': t['at'], 'conditions': show_dnf(dnf)})
+        ctx.inst('register_channel|mux', {'function': rc.path, 'at': t['at'], 'conditions': show_dnf(dnf)[:3]})
         if not q.cond_has(dnf, lambda a: a[0] == 'bool' and 'to_remote' in a[1] and a[2] is True):
             ctx.viol('%s|mux-guard' % rc.path, t['at'], 'a multiplexed (TCP) sender is created for a link that is not marked to_remote', None)
     for bi, t in demux:
